@@ -30,9 +30,16 @@ Theorem C01_initial_invariant :
 Proof. exact initial_inv_spec. Qed.
 Print Assumptions C01_initial_invariant.
 
-(** every covered operation (Create, Mkdir, Remove, Symlink, Chmod, Chown,
-    Lchown, Chtimes on a resolved name, not following a final symlink) keeps
-    the transaction invariant, whether it succeeds or fails *)
+(** every covered operation keeps the transaction invariant, whether it
+    succeeds or fails.  Covered ([covered] of Spec/Inv.v), on resolved names:
+    Create, OpenFile+write (any flags), Mkdir, MkdirAll (any number of missing
+    levels), Remove, RemoveAll (of anything but the root, directories with
+    their content included), Rename of a source without entries below it,
+    Symlink, Chmod, Chown, Lchown, Chtimes, and the read-only Stat, Lstat,
+    Readlink, Open+read, Open+Readdirnames; the mutating ones that follow a
+    final symlink (Create, OpenFile with a non-zero flag, Chmod, Chown,
+    Chtimes) not on a symlink (D14).  The base has to satisfy [api_laws2]
+    (Spec/Laws2.v) next to [api_laws]. *)
 Theorem C01_step_keeps_invariant :
   forall base backup Vb Vk tnb tnk accb acck rhb rhk whb whk B0,
   step_stmt base backup Vb Vk tnb tnk accb acck rhb rhk whb whk B0.
